@@ -199,7 +199,7 @@ def run(tier: str, opts: dict) -> int:
             tasks.append((st, d))
     res = pmap(_eval, tasks, chunk=16)
     regen = opts.get("regen_pins")
-    ansi_ok = {id(st): bool(r.get("ok")) for (st, d), r in zip(tasks, res) if d == "ansi"}
+    ansi_res = {id(st): r for (st, d), r in zip(tasks, res) if d == "ansi" and not r.get("skip")}
     new_pins, unclassified = {}, []
     per_dialect, nontrivial, skipped = {}, set(), 0
     for (st, d), r in zip(tasks, res):
@@ -220,8 +220,12 @@ def run(tier: str, opts: dict) -> int:
         dg = common.digest(r["obs"])
         if regen:
             fid = classify(st, d, r)
-            if fid is None and d != "ansi" and ansi_ok.get(id(st)):
-                fid = f"F-C09-{d}-deviates"  # ansi agrees with the reference for this statement, this dialect does not
+            if fid is None and d != "ansi" and id(st) in ansi_res:
+                ar = ansi_res[id(st)]
+                if ar.get("ok") or r.get("obs") != ar.get("obs"):
+                    fid = f"F-C09-{d}-deviates"  # this dialect's answer differs from ansi's (which may itself be a listed finding)
+                else:
+                    fid = classify(st, "ansi", ar)  # the same wrong answer as under ansi
             if fid is None:
                 unclassified.append((key, r))
             else:
